@@ -4,7 +4,9 @@ package c08
 import (
 	"fmt"
 	"math/bits"
+	"sync"
 	"testing"
+	"time"
 
 	"github.com/akalin/gopar/gf2"
 	"github.com/akalin/gopar/gf2p16"
@@ -132,6 +134,48 @@ func check(c Case) string {
 			want := gf16.Mul(a, a)
 			if out[0] != byte(want) || out[1] != byte(want>>8) || out[2] != byte(a) || out[3] != byte(a>>8) {
 				return fmt.Sprintf("as the first field operation of a process: MulByteSliceLE(%#x) gives % x", a, out)
+			}
+		}
+	case "concurrent":
+		// the operations are pure functions: calls that overlap in time (eight goroutines, different exponents / divisors) give
+		// the same values as calls made alone
+		var wg sync.WaitGroup
+		msgs := make([]string, 8)
+		for g := 0; g < 8; g++ {
+			wg.Add(1)
+			go func(g int) {
+				defer wg.Done()
+				s := c.A + uint64(g)*0x9E3779B97F4A7C15 | 1
+				for i := uint64(0); i < c.B && msgs[g] == ""; i++ {
+					s ^= s << 13
+					s ^= s >> 7
+					s ^= s << 17
+					a, p := uint16(s>>40)|1, uint32(s)|0x10000
+					if got := uint16(gf2p16.T(a).Pow(p)); got != gf16.FPow(a, uint64(p)) {
+						msgs[g] = fmt.Sprintf("with 8 goroutines calling Pow at the same time: Pow(%#x,%d)=%#x, reference %#x", a, p, got, gf16.FPow(a, uint64(p)))
+					}
+					pp, d := s, (s>>17)|1
+					if d > pp {
+						pp, d = d, pp
+					}
+					q, r := gf2.Poly64(pp).Div(gf2.Poly64(d))
+					_, lo := refPolyMul128(uint64(q), d)
+					if lo^uint64(r) != pp || (r != 0 && bits.Len64(uint64(r)) >= bits.Len64(d)) {
+						msgs[g] = fmt.Sprintf("with 8 goroutines calling Div at the same time: Poly64(%#x).Div(%#x) = (%#x, %#x) violates q*d+r=p or deg r < deg d", pp, d, uint64(q), uint64(r))
+					}
+				}
+			}(g)
+		}
+		done := make(chan struct{})
+		go func() { wg.Wait(); close(done) }()
+		select {
+		case <-done:
+		case <-time.After(120 * time.Second):
+			return "with 8 goroutines calling Pow and Div at the same time the calls did not return within two minutes"
+		}
+		for _, m := range msgs {
+			if m != "" {
+				return m
 			}
 		}
 	case "pow_sweep":
@@ -361,6 +405,12 @@ func TestCheck(t *testing.T) {
 		}
 	})
 
+	// the same operations from eight goroutines at once
+	{
+		rec.Class("overlapping-calls")
+		n := uint64(cfg.N(100000, 1500000))
+		do(Case{Op: "concurrent", A: cfg.RapidSeed(78) * 0x9E3779B97F4A7C15, B: n}, 8*n, false)
+	}
 	// a bulk sweep over pseudo-random (base, exponent) pairs, a quarter of them with exponents at digit-carry boundaries
 	{
 		n := uint64(cfg.N(4000000, 100000000))
